@@ -138,6 +138,35 @@ def witness_inputs(rng, g, n):
     return res[:n]
 
 
+def small_grammars():
+    """calculator-like conflict-free grammars for the exhaustive small-input corpus"""
+    cc = G.classic_corpus()
+    g3 = Gram(["+", "n", "(", ")"], [("E", [[r("E"), t("+"), r("T")], [r("T")]]),
+                                     ("T", [[t("n")], [t("("), r("E"), t(")")]])])
+    g4 = Gram(["semi", "n", "(", ")"], [("S", [[r("S"), t("semi"), r("E")], [r("E")]]),
+                                        ("E", [[t("n")], [t("("), r("S"), t(")")], [t("("), t(")")]])])
+    return [("calc", cc[0]), ("corchuelo", cc[1]), ("sum", g3), ("seq", g4)]
+
+
+def corpus_cases(rng, sample_long, chunk=40):
+    """Corpus first: every small grammar x {no %avoid_insert, %avoid_insert on each single token} (the declaration
+    also renumbers the tokens, hence reorders the search) x ALL inputs up to length 3 over the alphabet plus a seeded
+    sample of length 4-5; unit costs.  Search-order dependent losses (a neighbour discarded instead of merged in the
+    same-cost sweep) show on inputs as short as `) (`."""
+    import itertools
+    out = []
+    for name, g in small_grammars():
+        toks = g.used_tokens() or g.tokens
+        inputs = [list(x) for n in range(1, 4) for x in itertools.product(toks, repeat=n)]
+        inputs += [[rng.choice(toks) for _ in range(rng.randint(4, 5))] for _ in range(sample_long)]
+        for av in [None] + list(toks):
+            g2 = Gram(g.tokens, [(n, [(list(sy), p) for sy, p in ps]) for n, ps in g.rules], precs=g.precs, start=g.start,
+                      avoid_insert=[av] if av else [])
+            for i in range(0, len(inputs), chunk):
+                out.append(("small_" + name, g2, "unit", {}, inputs[i:i + chunk]))
+    return out
+
+
 def gen_cases(ctx, n_cases, n_inputs):
     """-> list of (family, Gram, costname, costs dict, inputs)"""
     rng = ctx.rng
